@@ -71,10 +71,14 @@ class DocActions(object):
       assert row_id in table.row_ids, \
           "docactions.[Bulk]UpdateRecord for non-existent record #%s" % row_id
 
+    # Look up all columns before changing anything, so that an unknown column fails the whole
+    # action rather than leaving it partially applied (with no undo action recorded).
+    col_objs = {col_id: table.get_column(col_id) for col_id in columns}
+
     # Load the updated values.
     undo_values = {}
     for col_id, values in columns.items():
-      col = table.get_column(col_id)
+      col = col_objs[col_id]
       undo_values[col_id] = [col.raw_get(r) for r in row_ids]
       for (row_id, value) in zip(row_ids, values):
         col.set(row_id, value)
